@@ -692,6 +692,43 @@ pub fn run(tier: &str) -> Run {
             }
         }
     }
+    // operation histories: every sequence of <= depth model operations from every start file
+    {
+        let w = crate::hist::world(&g);
+        let depth = if tier == "thorough" { 3 } else { 2 };
+        let seqs = crate::hist::sequences(depth);
+        let n_starts = w.starts.len();
+        let ores = par_map(seqs.len() * n_starts, &|j| crate::hist::judge(&w, j % n_starts, &seqs[j / n_starts]), &|j| {
+            println!("MACHINERY-ERROR: C01 operation history hangs: {} {:?}", w.starts[j % n_starts].0, seqs[j / n_starts]);
+            std::process::exit(2);
+        });
+        for (j, r) in ores.into_iter().enumerate() {
+            let (st, sq) = (j % n_starts, &seqs[j / n_starts]);
+            let names: Vec<String> = sq.iter().map(crate::hist::act_name).collect();
+            run.evaluations += 1;
+            run.transitions += 3 + sq.len() as u64;
+            let h = fnv1a(format!("op-history {} {names:?}", w.starts[st].0).as_bytes());
+            run.states.insert(h);
+            match r {
+                RT::Ok { .. } => {
+                    run.nontrivial.insert(h);
+                    run.outcome("op-history: stable");
+                    if j % 30011 == 5 {
+                        run.sample(json!({"label": format!("{}: {}", w.starts[st].0, names.join(", "))}));
+                    }
+                }
+                RT::NotAccepted => run.outcome("op-history: not applicable"),
+                RT::Viol { oracle, what } => {
+                    run.outcome("op-history: violation");
+                    // shape of the history: operation names without their kind argument
+                    let shape: Vec<String> = names.iter().map(|n| n.split(' ').next().unwrap_or("").to_string()).collect();
+                    let key = if oracle.starts_with("panic") { format!("C01/{oracle} {}", vcore::explore::panic_key(&what)) } else { format!("C01/{oracle}/op-history:{}", shape.join("+")) };
+                    run.violation(key, format!("{} then {}: {what}", w.starts[st].0, names.join(", ")), json!({"op_history": {"start": st, "ops": names}}));
+                }
+            }
+        }
+        run.require("op-history: stable", 1000);
+    }
     // load_fragment: the content of the MODULE of every carrier, optional-slot and rich document loaded as a fragment;
     // write(path, banner) + load(path)
     let mut fdocs: Vec<(String, String)> = Vec::new();
@@ -800,12 +837,23 @@ pub fn run(tier: &str) -> Run {
     run.require("cm: stable", 1000);
     run.require("val: stable", 1000);
     run.require("ifdata: stable", 50);
-    run.rule = "documents = grammar carriers + every optional slot (once, twice, pairs) + every enum item, each also with CRLF; whitespace (7 kinds) and comments (7 kinds) at every gap of every carrier and of rich documents, all pairs on selected documents; every value class at every scalar parameter (ints per width, 28 float notations, all strings of <= k escape units, identifier shapes); IF_DATA x {with/without A2ML} x {built-in spec} x CRLF; 7 whitespace and 10 comment shapes at every gap inside 10 IF_DATA payloads; the MODULE content of every carrier / optional-slot / rich document through load_fragment (equal to the module of the whole document, stable when placed in a new file); every such document written with a banner to a file and loaded from it. Oracle: t0 -load-> M0 -write-> t1 -load-> M1 -write-> t2: reload ok, M1 == M0, t2 == t1 bytewise (3rd cycle classifies drift). distinct = distinct input text; non-trivial = accepted by the loader".into();
+    run.rule = "documents = grammar carriers + every optional slot (once, twice, pairs) + every enum item, each also with CRLF; whitespace (7 kinds) and comments (7 kinds) at every gap of every carrier and of rich documents, all pairs on selected documents; every value class at every scalar parameter (ints per width, 28 float notations, all strings of <= k escape units, identifier shapes); IF_DATA x {with/without A2ML} x {built-in spec} x CRLF; 7 whitespace and 10 comment shapes at every gap inside 10 IF_DATA payloads; the MODULE content of every carrier / optional-slot / rich document through load_fragment (equal to the module of the whole document, stable when placed in a new file); every such document written with a banner to a file and loaded from it; operation histories: every sequence of <= 2 (thorough 3) operations over {push x 8 kinds, remove first / last, field edit, sort, sort_new_items, cleanup, ifdata_cleanup, merge_includes, merge_modules with 4 partners (other documents, identical twin, same names with other content), reload} from 5 start files, the resulting model judged by the same oracle. Oracle: t0 -load-> M0 -write-> t1 -load-> M1 -write-> t2: reload ok, M1 == M0, t2 == t1 bytewise (3rd cycle classifies drift). distinct = distinct input text; non-trivial = accepted by the loader".into();
     run.assumptions = vec!["inputs the loader rejects are outside the quantifier and only counted".into()];
     run
 }
 
 pub fn replay(v: &Value) -> Result<String, String> {
+    if let Some(oh) = v.get("op_history") {
+        let g = corpus::grammar();
+        let w = crate::hist::world(&g);
+        let st = oh["start"].as_u64().ok_or("no start")? as usize;
+        let ops: Vec<crate::hist::HAct> = oh["ops"].as_array().ok_or("no ops")?.iter().filter_map(|o| o.as_str().and_then(crate::hist::act_from)).collect();
+        return match crate::hist::judge(&w, st, &ops) {
+            RT::Ok { bytes_t1 } => Ok(format!("stable, {bytes_t1} bytes")),
+            RT::NotAccepted => Ok("not applicable".into()),
+            RT::Viol { oracle, what } => Err(format!("{oracle}: {what}")),
+        };
+    }
     if let Some(j) = v["api_case"].as_u64() {
         let j = j as usize;
         let (_, mut f) = crate::gen_builders::build_slot(j / 8, 1 + (j % 2), (j / 2) % 2 * 2);
